@@ -21,7 +21,7 @@ def run(prop, tier, seed, out):
         out.add_tlc(tab)
         outp = scr.path("fmt.json")
         t0 = time.time()
-        p = run_vh(vh, ["fmt-replay", "-vectors", vec.out_path, "-seed", str(seed), "-n", "20" if quick else "500", "-out", outp], timeout=2400)
+        p = run_vh(vh, ["fmt-replay", "-vectors", vec.out_path, "-seed", str(seed), "-n", "20" if quick else "2000", "-out", outp], timeout=2400)
         if p.returncode != 0:
             raise Broken("fmt-replay failed: " + p.stderr[-1500:])
         r = json.load(open(outp))
